@@ -179,6 +179,26 @@ def run(chk):
     chk.ob("C08.P.assumption", "signal_probability::counts the sub-circuit under {n: True}", bool(ma) and ma[0] is subc and ma[1] == {"g": True} and ma[1]["g"] is True, file="props.py", func="signal_probability", line=fp.node.lineno,
            fact={"assumptions": str(ma[1]) if ma else None, "counted_is_subcircuit": bool(ma) and ma[0] is subc}, expect="{'g': True} on the sub-circuit")
 
+    # ---- P (values): exact signal probability of every node of model circuits, incl. nodes fed only by constants -----
+    from fractions import Fraction
+    from ..pkgenv import Package
+    from ..refmodel import build, free_nodes, simulate as rsim
+    from ..refsat import overrides
+    from ..semantic import assignments as _assignments
+
+    PP = Package(repo, overrides=overrides())
+    pmodels = {
+        "ties": build({"a": ("input", []), "z": ("0", []), "w": ("1", []), "nz": ("not", ["z"]), "bw": ("buf", ["w"]), "g": ("and", ["a", "nz"]), "k": ("nor", ["z", "bw"]), "x2": ("xor", ["nz", "bw"])}, outputs=["g", "k"]),
+        "plain": build({"a": ("input", []), "b": ("input", []), "c": ("input", []), "g": ("or", ["a", "b"]), "h": ("xnor", ["g", "c"]), "n": ("not", ["g"])}, outputs=["h", "n"]),
+    }
+    for mname, cm in pmodels.items():
+        for node in sorted(cm.nodes()):
+            sp = sorted(cm.startpoints(node))
+            ones = sum(1 for a in _assignments(sp) if rsim(cm, {**{s: False for s in cm.startpoints()}, **a})[node])
+            want = Fraction(ones, 2 ** len(sp))
+            r = PP.call("props.py", "signal_probability", cm, node, False)
+            ok = r[0] == "return" and isinstance(r[1], (int, float)) and Fraction(r[1]).limit_denominator(1 << 20) == want
+            chk.ob("C08.P.value", f"signal_probability::{mname}::{node}", ok, file="props.py", func="signal_probability", fact={"result": str(r)[:80], "expected": str(want)}, expect=str(want))
     # ---- D: approx_model_count DIMACS ---------------------------------
     fa = repo.func(FILE, "approx_model_count")
     pa = func_params(fa.node)
